@@ -71,7 +71,7 @@ func (r Float32) MAX(a, b Float32) Scalar {
 func (c Float32) ABS(a Float32) Scalar {
   switch a.Sign() {
   case -1: c.NEG(a)
-  case 0: c.Reset()
+  case 0: c.SetFloat64(math.Abs(a.GetFloat64()))
   case 1: c.SET(a)
   }
   return c
